@@ -58,8 +58,23 @@ type c35Block struct {
 	Scripts [][]string `json:"scripts"` // per node: behaviour of the next GetChunk responses during its Accept (then honest)
 }
 
+// c35Fill = chunks of one producer that a node holds as pending (attested, in no
+// block, never accepted) for the whole case; they use up the producer's budget
+// of pending chunk bytes on that node.
+type c35Fill struct {
+	Node     int   `json:"node"`
+	Producer int   `json:"producer"`
+	Txs      []int `json:"txs"` // one pending chunk per entry: its number of transactions
+}
+
 type c35Case struct {
-	K      int        `json:"k"`
+	K int `json:"k"`
+	// Limit, when > 0, is the per-producer limit of pending chunk bytes every
+	// node is configured with (Rules.GetMaxAccumulatedProducerChunkWeight);
+	// 0 = the package's test default (1 MiB, never reached).
+	Limit  uint64     `json:"limit,omitempty"`
+	Fills  []c35Fill  `json:"fills,omitempty"`
+	Mode   string     `json:"mode,omitempty"` // how Limit/Fills were chosen (documentation of the witness)
 	Blocks []c35Block `json:"blocks"`
 }
 
@@ -108,6 +123,26 @@ func c35GetItem(net *vfNet, k, producer, tag int) (*c35Item, error) {
 		return nil, err
 	}
 	v, _ := c35Items.LoadOrStore(key, &c35Item{chunk: c, cert: cert})
+	return v.(*c35Item), nil
+}
+
+// c35GetFiller returns the idx-th pending-only chunk of a producer with ntx
+// transactions (distinct from every block chunk: other expiry, other tx ids).
+func c35GetFiller(net *vfNet, k, producer, idx, ntx int) (*c35Item, error) {
+	key := fmt.Sprintf("f/%d/%d/%d/%d", k, producer, idx, ntx)
+	if v, ok := c35Items.Load(key); ok {
+		return v.(*c35Item), nil
+	}
+	expiry := int64(2000 + idx*16 + ntx)
+	txs := make([]dsmrtest.Tx, ntx)
+	for i := range txs {
+		txs[i] = vfTx(uint64(100000+idx*1000+ntx*32+i), expiry)
+	}
+	c, err := net.signChunk(producer, expiry, txs)
+	if err != nil {
+		return nil, err
+	}
+	v, _ := c35Items.LoadOrStore(key, &c35Item{chunk: c})
 	return v.(*c35Item), nil
 }
 
@@ -332,6 +367,10 @@ type c35Stats struct {
 	accepts, allLocal, withFetch, fetched, requests, valid, unavail, refetch int
 	soleFirst, soleMiddle, soleLast, soleFetched, maxReqsPerChunk            int
 	neverAskedSuppressed, deliveryPanics                                     int
+	// producer budgets (cases with a small per-producer limit of pending chunk bytes)
+	limitAccepts, fillChunks, fillBytes                                        int
+	fetchFull, fetchNear, fetchOverByOne, fetchFits, fetchOver, fetchUnder      int
+	accBudgetHit, accFull, accNear, accOtherOnly, accBoth, accSecondFetchOver  int
 	faults                                                                   map[string]int
 	shapes                                                                   []string
 	inconclusive                                                             string
@@ -354,8 +393,15 @@ func runC35(t *testing.T, c c35Case) (st c35Stats, fails []c35Fail) {
 		never:    make(chan struct{}),
 	}
 	var deliveryErr atomic.Value
+	caseRules := testRuleFactory
+	if c.Limit > 0 {
+		caseRules = ruleFactory{rules: rules{
+			validityWindow:         int64(testingDefaultValidityWindowDuration),
+			maxProducerChunkWeight: c.Limit,
+		}}
+	}
 	nodes, err := vfNewNodes(t, net, vfNodeOpts{
-		rules: testRuleFactory,
+		rules: caseRules,
 		wrapGetChunk: func(_, peer int, h p2p.Handler) p2p.Handler {
 			return &c35Handler{ctl: ctl, peer: peer, inner: h}
 		},
@@ -393,6 +439,30 @@ func runC35(t *testing.T, c c35Case) (st c35Stats, fails []c35Fail) {
 			st.inconclusive = "harness: message delivery failed: " + v.(string)
 		}
 	}()
+
+	// pending chunks that use up producer budgets: every one is handed to the
+	// node through the chunk signature request path (verify, rate limit, store),
+	// i.e. the node attested it and it is never accepted during the case
+	for _, f := range c.Fills {
+		if f.Node < 0 || f.Node >= len(nodes) || f.Producer < 0 || f.Producer >= c.K {
+			st.inconclusive = "harness: fill out of range"
+			return
+		}
+		sigVerifier := ChunkSignatureRequestVerifier[dsmrtest.Tx]{verifier: nodes[f.Node].st.verifier, storage: nodes[f.Node].st}
+		for j, ntx := range f.Txs {
+			it, err := c35GetFiller(net, c.K, f.Producer, j, ntx)
+			if err != nil {
+				st.inconclusive = "chunk: " + err.Error()
+				return
+			}
+			if appErr := sigVerifier.Verify(ctx, nil, it.chunk.bytes); appErr != nil {
+				st.inconclusive = fmt.Sprintf("harness: node %d refused to attest pending chunk %d (%d bytes) of producer %d within the limit %d: %v", f.Node, j, len(it.chunk.bytes), f.Producer, c.Limit, appErr)
+				return
+			}
+			st.fillChunks++
+			st.fillBytes += len(it.chunk.bytes)
+		}
+	}
 
 	parent := Block{}
 	for bi, b := range c.Blocks {
@@ -477,6 +547,74 @@ func runC35(t *testing.T, c c35Case) (st c35Stats, fails []c35Fail) {
 					}
 				}
 			}
+			// producer budgets of the acceptor right before the Accept (classification
+			// of the case for the counters and the distinctness key only, no verdict)
+			budget := ""
+			var bHit, bFull, bNear, bOther, bSecond bool
+			if c.Limit > 0 && nRemote > 0 {
+				pend := map[ids.NodeID]uint64{}
+				node.st.lock.RLock()
+				for p, v := range node.st.pendingChunksSizes {
+					pend[p] = v
+				}
+				node.st.lock.RUnlock()
+				fetchedOf := map[ids.NodeID]int{}
+				var minFetched uint64
+				var tags strings.Builder
+				for ci, it := range items {
+					if local[ci] {
+						continue
+					}
+					p, sz := it.chunk.Producer, uint64(len(it.chunk.bytes))
+					if minFetched == 0 || sz < minFetched {
+						minFetched = sz
+					}
+					have := pend[p] // what the producer has pending when this chunk arrives (earlier fetched chunks included)
+					switch {
+					case have > c.Limit:
+						st.fetchOver++
+						tags.WriteByte('O')
+						bHit = true
+					case have == c.Limit:
+						st.fetchFull++
+						tags.WriteByte('F')
+						bHit, bFull = true, true
+					case have+sz > c.Limit:
+						st.fetchNear++
+						bHit, bNear = true, true
+						if have+sz == c.Limit+1 {
+							st.fetchOverByOne++
+							tags.WriteByte('1')
+						} else {
+							tags.WriteByte('N')
+						}
+					case have+sz == c.Limit:
+						st.fetchFits++
+						tags.WriteByte('E')
+					default:
+						st.fetchUnder++
+						tags.WriteByte('u')
+					}
+					if have+sz > c.Limit && fetchedOf[p] > 0 {
+						bSecond = true
+					}
+					fetchedOf[p]++
+					pend[p] = have + sz
+				}
+				for p, v := range pend {
+					if fetchedOf[p] == 0 && v <= c.Limit && v+minFetched > c.Limit {
+						bOther = true // a producer none of whose chunks is fetched has no room for a chunk of that size
+					}
+				}
+				budget = tags.String()
+				if bOther {
+					budget += "+q"
+				}
+			}
+			budgetNote := ""
+			if budget != "" {
+				budgetNote = fmt.Sprintf(" (per-producer limit of pending chunk bytes %d, budget class per fetched chunk %s)", c.Limit, budget)
+			}
 			script := []string(nil)
 			if ni < len(b.Scripts) {
 				script = b.Scripts[ni]
@@ -498,7 +636,11 @@ func runC35(t *testing.T, c c35Case) (st c35Stats, fails []c35Fail) {
 				if len(ev) > 40 {
 					ev = ev[len(ev)-40:]
 				}
-				return map[string]any{"case": c, "block": bi, "node": ni, "chunks_local_or_remote": pat.String(), "script": script, "last_requests": ev, "canonical_position_of_node": net.pos}
+				w := map[string]any{"case": c, "block": bi, "node": ni, "chunks_local_or_remote": pat.String(), "script": script, "last_requests": ev, "canonical_position_of_node": net.pos}
+				if budget != "" {
+					w["producer_budget_per_fetched_chunk"] = budget + " (per fetched chunk in certificate order: F = its producer's pending bytes on the acceptor equal the limit, N/1 = the chunk exceeds the limit (1: by one byte), E = fits exactly, u = fits, O = already above; +q = another producer has no room either)"
+				}
+				return w
 			}
 			select {
 			case <-done:
@@ -518,7 +660,7 @@ func runC35(t *testing.T, c c35Case) (st c35Stats, fails []c35Fail) {
 				st.requests += total
 				switch {
 				case v > 0:
-					fails = append(fails, c35Fail{"C35/accept-never-completes-after-valid-chunk", fmt.Sprintf("block %d node %d (%s): Accept issued more than %d GetChunk requests for one chunk (%d in total) although a valid copy of the requested chunk was served %d times", bi, ni, pat.String(), reqs-1, total, v), wit()})
+					fails = append(fails, c35Fail{"C35/accept-never-completes-after-valid-chunk", fmt.Sprintf("block %d node %d (%s): Accept issued more than %d GetChunk requests for one chunk (%d in total) although a valid copy of the requested chunk was served %d times%s", bi, ni, pat.String(), reqs-1, total, v, budgetNote), wit()})
 				case known && len(hs) > 0 && holderAsked == 0:
 					// reqs-1 requests for this chunk were answered, none went to a validator that holds it
 					hpos := make([]int, len(hs))
@@ -567,7 +709,30 @@ func runC35(t *testing.T, c c35Case) (st c35Stats, fails []c35Fail) {
 			} else {
 				st.withFetch++
 				st.fetched += nRemote
-				st.shapes = append(st.shapes, fmt.Sprintf("k%d b%d %s %v", c.K, bi, pat.String(), script))
+				shape := fmt.Sprintf("k%d b%d %s %v", c.K, bi, pat.String(), script)
+				if budget != "" {
+					shape += " L:" + budget
+					st.limitAccepts++
+					if bHit {
+						st.accBudgetHit++
+					}
+					if bFull {
+						st.accFull++
+					}
+					if bNear {
+						st.accNear++
+					}
+					if bOther && !bHit {
+						st.accOtherOnly++
+					}
+					if bOther && bHit {
+						st.accBoth++
+					}
+					if bSecond {
+						st.accSecondFetchOver++
+					}
+				}
+				st.shapes = append(st.shapes, shape)
 			}
 			where := fmt.Sprintf("block %d node %d chunks %s script %v", bi, ni, pat.String(), script)
 			if panicked != nil {
@@ -698,15 +863,180 @@ func c35Gen(rng *rand.Rand) c35Case {
 		}
 		c.Blocks = append(c.Blocks, b)
 	}
+	if rng.IntN(20) < 11 {
+		c35GenBudget(rng, &c)
+	}
 	return c
+}
+
+var c35BudgetModes = []string{"full", "full", "full", "over-by-one", "over-by-one", "near", "near", "near", "fits", "fits", "room"}
+
+// c35GenBudget gives the case a small per-producer limit of pending chunk bytes
+// and lets nodes hold pending chunks that fill / nearly fill it: it picks one
+// (block, acceptor, chunk the acceptor must fetch) target, a primary producer
+// on that acceptor (the producer of the fetched chunk, or another one) whose
+// pending chunks (fillers + the block's chunks it stores) amount to X bytes,
+// and sets the limit to X (+ a mode dependent room measured in the size s of
+// the chunk to fetch): full = X, over-by-one = X+s-1, near = X+1..X+s-1,
+// fits = X+s, room = more. Further (node, producer) budgets are then filled
+// greedily as close to the limit as the chunk sizes allow.
+func c35GenBudget(rng *rand.Rand, c *c35Case) {
+	net, err := c35Net(c.K)
+	if err != nil {
+		return
+	}
+	size := func(bi, ci int) uint64 {
+		it, err := c35GetItem(net, c.K, c.Blocks[bi].Chunks[ci].Producer, bi*8+ci)
+		if err != nil {
+			return 0
+		}
+		return uint64(len(it.chunk.bytes))
+	}
+	holds := func(ch c35Chunk, n int) bool {
+		for _, h := range ch.Holders {
+			if h == n {
+				return true
+			}
+		}
+		return false
+	}
+	type target struct{ bi, n, ci int }
+	var tgts []target
+	var maxChunk uint64
+	for bi, b := range c.Blocks {
+		for ci, ch := range b.Chunks {
+			if sz := size(bi, ci); sz > maxChunk {
+				maxChunk = sz
+			}
+			for n := 0; n < c.K; n++ {
+				if !holds(ch, n) {
+					tgts = append(tgts, target{bi, n, ci})
+				}
+			}
+		}
+	}
+	if len(tgts) == 0 || maxChunk == 0 {
+		return
+	}
+	tg := tgts[rng.IntN(len(tgts))]
+	s := size(tg.bi, tg.ci)
+	fetchedProducer := c.Blocks[tg.bi].Chunks[tg.ci].Producer
+	// bytes of the target block's chunks of producer p that node n stores when it accepts the block
+	held := func(n, p int) uint64 {
+		var sum uint64
+		for ci, ch := range c.Blocks[tg.bi].Chunks {
+			if ch.Producer == p && holds(ch, n) {
+				sum += size(tg.bi, ci)
+			}
+		}
+		return sum
+	}
+	fills := map[[2]int]*c35Fill{}
+	var order [][2]int
+	filled := func(n, p int) uint64 {
+		f := fills[[2]int{n, p}]
+		if f == nil {
+			return 0
+		}
+		var sum uint64
+		for j, ntx := range f.Txs {
+			it, err := c35GetFiller(net, c.K, p, j, ntx)
+			if err != nil {
+				return 0
+			}
+			sum += uint64(len(it.chunk.bytes))
+		}
+		return sum
+	}
+	fillerSize := func(n, p, ntx int) uint64 {
+		j := 0
+		if f := fills[[2]int{n, p}]; f != nil {
+			j = len(f.Txs)
+		}
+		it, err := c35GetFiller(net, c.K, p, j, ntx)
+		if err != nil {
+			return 0
+		}
+		return uint64(len(it.chunk.bytes))
+	}
+	add := func(n, p, ntx int) {
+		k := [2]int{n, p}
+		if fills[k] == nil {
+			fills[k] = &c35Fill{Node: n, Producer: p}
+			order = append(order, k)
+		}
+		fills[k].Txs = append(fills[k].Txs, ntx)
+	}
+	// greedy: pending chunks of producer p on node n up to the limit, as close as the sizes allow
+	greedy := func(n, p int, limit uint64) {
+		base := held(n, p)
+		for tries := 0; tries < 8; tries++ {
+			ntx := 1 + rng.IntN(6)
+			if sz := fillerSize(n, p, ntx); sz > 0 && base+filled(n, p)+sz <= limit {
+				add(n, p, ntx)
+			}
+		}
+		for ntx := 6; ntx >= 1; ntx-- {
+			if sz := fillerSize(n, p, ntx); sz > 0 && base+filled(n, p)+sz <= limit {
+				add(n, p, ntx)
+				break
+			}
+		}
+	}
+
+	which := []string{"fetched-producer", "fetched-producer", "both", "both", "other-producer"}[rng.IntN(5)]
+	primary := fetchedProducer
+	if which == "other-producer" {
+		primary = (fetchedProducer + 1 + rng.IntN(c.K-1)) % c.K
+	}
+	for m := rng.IntN(4); m > 0; m-- {
+		add(tg.n, primary, 1+rng.IntN(6))
+	}
+	// at least one pending chunk, and a limit under which every chunk of the case could have been attested
+	for held(tg.n, primary)+filled(tg.n, primary) < maxChunk {
+		add(tg.n, primary, 1+rng.IntN(6))
+	}
+	x := held(tg.n, primary) + filled(tg.n, primary)
+	mode := c35BudgetModes[rng.IntN(len(c35BudgetModes))]
+	switch mode {
+	case "full":
+		c.Limit = x
+	case "over-by-one":
+		c.Limit = x + s - 1
+	case "near":
+		c.Limit = x + 1 + uint64(rng.IntN(int(s)-1))
+	case "fits":
+		c.Limit = x + s
+	default:
+		c.Limit = x + s + 1 + uint64(rng.IntN(int(2*s)))
+	}
+	if which == "both" {
+		greedy(tg.n, (fetchedProducer+1+rng.IntN(c.K-1))%c.K, c.Limit)
+	}
+	// budgets on other nodes (the peers that serve the chunk, later acceptors)
+	for extra := rng.IntN(3); extra > 0; extra-- {
+		n, p := rng.IntN(c.K), rng.IntN(c.K)
+		if n == tg.n && (p == primary || fills[[2]int{n, p}] != nil) {
+			continue
+		}
+		if fills[[2]int{n, p}] != nil {
+			continue
+		}
+		greedy(n, p, c.Limit)
+	}
+	for _, k := range order {
+		c.Fills = append(c.Fills, *fills[k])
+	}
+	c.Mode = fmt.Sprintf("%s %s: block %d node %d fetches chunk %d (%d bytes) of producer %d", which, mode, tg.bi, tg.n, tg.ci, s, fetchedProducer)
 }
 
 func TestC35(t *testing.T) {
 	r := kit.Start(t, "C35", "fault_enumeration")
-	r.Rule("cases = 2..5 real dsmr nodes (real ChunkStorage, ChunkVerifier, GetChunk handlers and p2p clients; deterministic validator keys), chains of 1..3 blocks of 1..4 certificates whose chunks are stored by a chosen subset of nodes; every node verifies and accepts every block in a random order, so that each chunk is local for some acceptors and must be fetched by others (from peers that hold it as pending or already accepted). Every GetChunk handler is wrapped: the next 0..5 responses during an Accept follow a script over {app error, not-available, garbage bytes, empty chunk, truncated chunk, corrupted signature, tampered body, another valid chunk, another chunk of the same block}, afterwards peers answer honestly (the request target is chosen at random by the code under test). Judged per Accept: it returns without error, ExecutedBlock.Chunks are byte-for-byte the certificates' chunks in certificate order with nothing extra, and no further request is sent for a chunk once a valid copy was served. Bounded progress in logical steps: the wrapped handlers count the requests per chunk and which validators were asked; when K(n)+len(script) requests for one chunk were answered (K(n) = smallest K with ((n-1)/n)^K < 1e-30, n = number of validators: 100/171/241/310 for 2/3/4/5, plus one) and none of them went to a validator holding the chunk, the Accept is reported as C35/holder-never-asked and abandoned (its next request is parked; at most 3 witnesses are reported). Chunks with a single holder are placed on the canonically last validator in 1/3 and on the first in 1/6 of the cases, else at random. One evaluation = one Accept; non-trivial = at least one chunk had to be fetched; distinct = (nodes, block index, local/remote pattern with holder counts and, for a single holder, its place f/m/l in the canonical validator order, fault script).")
+	r.Rule("cases = 2..5 real dsmr nodes (real ChunkStorage, ChunkVerifier, GetChunk handlers and p2p clients; deterministic validator keys), chains of 1..3 blocks of 1..4 certificates whose chunks are stored by a chosen subset of nodes; every node verifies and accepts every block in a random order, so that each chunk is local for some acceptors and must be fetched by others (from peers that hold it as pending or already accepted). Every GetChunk handler is wrapped: the next 0..5 responses during an Accept follow a script over {app error, not-available, garbage bytes, empty chunk, truncated chunk, corrupted signature, tampered body, another valid chunk, another chunk of the same block}, afterwards peers answer honestly (the request target is chosen at random by the code under test). Judged per Accept: it returns without error, ExecutedBlock.Chunks are byte-for-byte the certificates' chunks in certificate order with nothing extra, and no further request is sent for a chunk once a valid copy was served. Bounded progress in logical steps: the wrapped handlers count the requests per chunk and which validators were asked; when K(n)+len(script) requests for one chunk were answered (K(n) = smallest K with ((n-1)/n)^K < 1e-30, n = number of validators: 100/171/241/310 for 2/3/4/5, plus one) and none of them went to a validator holding the chunk, the Accept is reported as C35/holder-never-asked and abandoned (its next request is parked; at most 3 witnesses are reported). Chunks with a single holder are placed on the canonically last validator in 1/3 and on the first in 1/6 of the cases, else at random. Producer budgets: in 11/20 of the cases all nodes are configured with a small per-producer limit of pending chunk bytes (Rules.GetMaxAccumulatedProducerChunkWeight, a few chunk sizes instead of the 1 MiB test default) and, before the first block, chosen nodes attest PRNG-chosen pending chunks (1..6 transactions each, in no block, never accepted) of chosen producers through the chunk signature request path (ChunkSignatureRequestVerifier.Verify: verify, rate limit, store). One (block, acceptor, chunk the acceptor must fetch, size s) is the target; the pending bytes X of a primary producer on that acceptor (fillers + the block's chunks of that producer the acceptor stores) fix the limit: full = X, over-by-one = X+s-1, near = X+1..X+s-1, fits = X+s, room = more (weights 3/2/3/2/1); the primary producer is the producer of the fetched chunk (2/5), that producer plus another producer filled greedily up to the limit (2/5), or only another producer (1/5); 0..2 further (node, producer) budgets on any node (serving peers, later acceptors) are filled greedily up to the limit. Each Accept with a fetch under a small limit is classified from the acceptor's pending bytes per producer right before the Accept (per fetched chunk, earlier fetched chunks of the same producer included: budget full / chunk exceeds the nearly full budget / by one byte / fits exactly / has room / already above; another producer without room) - counters budget_*; the oracle is the same (the pending-chunk budget of a producer limits what a node attests, not what it accepts). One evaluation = one Accept; non-trivial = at least one chunk had to be fetched; distinct = (nodes, block index, local/remote pattern with holder counts and, for a single holder, its place f/m/l in the canonical validator order, fault script, budget class per fetched chunk).")
 	r.Assume(
 		"certificates are forged with all validator keys and chunks are placed with AddLocalChunkWithCert (the BuildChunk signature round would store the chunk on every signer); the Accept path under test is the same",
 		"chunk expiries lie inside every node's validity window, so a valid chunk is admissible on every node",
+		"the per-producer limit of pending chunk bytes is a limit on what a node attests (signature requests, BuildChunk); the statement makes acceptance depend only on a peer serving a valid chunk, so a full or exceeded budget of the chunk's producer on the acceptor must not prevent acceptance. Filler chunks respect the limit when they are attested; the block's own chunks are placed without the check (as before), so a producer can be above the limit before an Accept (counted separately)",
 		"an Accept that keeps asking for a chunk beyond the per-chunk request bound although valid copies of it were served is reported as never completing (the handler parks; no wall-clock verdict)",
 		"a request strategy that makes progress gives every validator a chance of at least 1/n per request (the code under test draws uniformly; round-robin or holder-aware strategies are asked sooner), so not asking the holder(s) in K(n) requests is not a chance event (< 1e-30 per Accept)",
 		"the GetChunk clients are wired like avalanchego's p2ptest.NewClientWithPeers, except that the message delivery goroutines recover panics and hand them to the monitor",
@@ -732,6 +1062,21 @@ func TestC35(t *testing.T) {
 		total.soleLast += st.soleLast
 		total.neverAskedSuppressed += st.neverAskedSuppressed
 		total.deliveryPanics += st.deliveryPanics
+		total.limitAccepts += st.limitAccepts
+		total.fillChunks += st.fillChunks
+		total.fillBytes += st.fillBytes
+		total.fetchFull += st.fetchFull
+		total.fetchNear += st.fetchNear
+		total.fetchOverByOne += st.fetchOverByOne
+		total.fetchFits += st.fetchFits
+		total.fetchOver += st.fetchOver
+		total.fetchUnder += st.fetchUnder
+		total.accBudgetHit += st.accBudgetHit
+		total.accFull += st.accFull
+		total.accNear += st.accNear
+		total.accOtherOnly += st.accOtherOnly
+		total.accBoth += st.accBoth
+		total.accSecondFetchOver += st.accSecondFetchOver
 		if st.maxReqsPerChunk > total.maxReqsPerChunk {
 			total.maxReqsPerChunk = st.maxReqsPerChunk
 		}
@@ -767,6 +1112,21 @@ func TestC35(t *testing.T) {
 		r.Count("max_requests_for_one_chunk", total.maxReqsPerChunk)
 		r.Count("holder_never_asked_witnesses_suppressed", total.neverAskedSuppressed)
 		r.Count("panics_recovered_on_delivery_goroutines", total.deliveryPanics)
+		r.Count("budget_pending_filler_chunks_attested", total.fillChunks)
+		r.Count("budget_pending_filler_bytes", total.fillBytes)
+		r.Count("budget_accepts_with_fetch_under_small_producer_limit", total.limitAccepts)
+		r.Count("budget_accepts_fetching_chunk_whose_producer_has_no_room", total.accBudgetHit)
+		r.Count("budget_accepts_fetching_chunk_of_producer_with_full_budget", total.accFull)
+		r.Count("budget_accepts_fetching_chunk_of_producer_with_nearly_full_budget", total.accNear)
+		r.Count("budget_accepts_second_fetched_chunk_of_producer_exceeds", total.accSecondFetchOver)
+		r.Count("budget_accepts_only_another_producer_without_room", total.accOtherOnly)
+		r.Count("budget_accepts_fetched_and_another_producer_without_room", total.accBoth)
+		r.Count("budget_fetched_chunks_producer_budget_full", total.fetchFull)
+		r.Count("budget_fetched_chunks_exceeding_nearly_full_budget", total.fetchNear)
+		r.Count("budget_fetched_chunks_exceeding_budget_by_one_byte", total.fetchOverByOne)
+		r.Count("budget_fetched_chunks_fitting_budget_exactly", total.fetchFits)
+		r.Count("budget_fetched_chunks_with_room", total.fetchUnder)
+		r.Count("budget_fetched_chunks_producer_already_above_limit", total.fetchOver)
 		r.Extra("requests_per_chunk_bound_by_validators", map[string]int{"2": c35AskBound(2), "3": c35AskBound(3), "4": c35AskBound(4), "5": c35AskBound(5)})
 		for k, v := range total.faults {
 			r.Count("fault_"+k, v)
